@@ -100,6 +100,7 @@ class Program:
         return None
 
     def function(self, qname):
+        qname = qname.split('#')[0]
         if '::' in qname:
             return self.cfunction(qname)
         parts = qname.split('.')
